@@ -99,7 +99,7 @@ def execute_statement(vc):
     keyspace exactly when every component is fixed; otherwise no routing key; the bound parameters are the statement's context"""
     import cassandra.cqlengine.query as Q
     from cassandra.query import SimpleStatement
-    fixed = vc.choice('partition_key', ['complete-1', 'complete-2', 'missing-component', 'model-without-routing'])
+    fixed = vc.choice('partition_key', ['complete-1', 'complete-2', 'complete-2-with-falsy-values', 'missing-component', 'model-without-routing'])
     sent = {}
 
     class Stmt(object):
@@ -113,7 +113,7 @@ def execute_statement(vc):
 
         def partition_key_values(self, index):
             sent['index'] = index
-            return {'complete-1': ['A'], 'complete-2': ['A', 'B'], 'missing-component': ['A', None], 'model-without-routing': []}[fixed]
+            return {'complete-1': ['A'], 'complete-2': ['A', 'B'], 'complete-2-with-falsy-values': [0, ''], 'missing-component': ['A', None], 'model-without-routing': []}[fixed]
 
     class Model(object):
         _partition_key_index = {} if fixed == 'model-without-routing' else ({'a': 0} if fixed == 'complete-1' else {'a': 0, 'b': 1})
@@ -157,6 +157,8 @@ def execute_statement(vc):
     ks = get_attr(vc.ctx, s, 'keyspace') if not isinstance(s, SimpleStatement) else s.keyspace
     if fixed == 'complete-1':
         vc.check('routing-key/single-component-is-the-serialized-value', rk == b'\x00\x01' and ks == 'model_ks' and sent.get('serialized') == (['A'], 4))
+    elif fixed == 'complete-2-with-falsy-values':
+        vc.check('routing-key/falsy-key-values-are-values', rk == b'\x00\x01\x02\x00' * 2 and ks == 'model_ks' and sent.get('serialized') == ([0, ''], 4))
     elif fixed == 'complete-2':
         vc.check('routing-key/composite-of-the-serialized-values-in-key-order', rk == b'\x00\x02\x00\x01\x00' + b'\x00\x01\x02\x00' and ks == 'model_ks' and sent.get('serialized') == (['A', 'B'], 4))
     else:
